@@ -12,6 +12,7 @@ import OrbProofs.C10Lemmas
 import OrbProofs.C10DistLemmas
 import OrbProofs.C10MoreLemmas
 import OrbProofs.C10NestLemmas
+import OrbProofs.C10ScaleLemmas
 
 namespace Orb.Planar
 open Orb Orb.Core
@@ -299,6 +300,75 @@ theorem distanceFrom_zero_iff_on_boundary (sqrt : α → α) (hm : Monotone sqrt
     distanceFrom sqrt g p = some 0 ↔ (0 : α) ∈ atoms p g := distanceFrom_zero_iff_on_boundary' sqrt hm hz g p
 
 end lengthdist
+
+/-! ### Scale invariance (white-box round)
+
+Multiplying every coordinate of a geometry (and of the query point) by one positive factor `s` multiplies centroids,
+lengths and distances by `s`, areas by `s²`, and leaves every reported index alone — for all nine kinds, nested
+collections included.  No absolute threshold ("areas below 1e-9 count as empty", "segments shorter than 1e-9 carry no
+weight") survives this: the degenerate fall-backs are taken exactly when the total weight IS zero, at every scale.
+`sqrt` is abstract; the only thing assumed of it is `sqrt (s·s·x) = s·sqrt x`, which the real square root satisfies for
+`s > 0` and float64's satisfies bit for bit for `s = 2^k` as long as nothing under- or overflows — there the whole
+statement holds bit for bit, which is the executable clause `scale-invariance` of the correspondence run (op `scale`). -/
+section scale
+variable {α : Type} [Field α] [LinearOrder α] [IsStrictOrderedRing α]
+
+/-- `CentroidArea (s·g) = (s·c, s²·a)` -/
+theorem centroidArea_scale (sqrt : α → α) (s : α) (hs : 0 < s) (hq : ∀ x, sqrt (s * s * x) = s * sqrt x) (g : Geom α) :
+    centroidArea sqrt (scaleGeom s g) = (scalePt s (centroidArea sqrt g).1, s * s * (centroidArea sqrt g).2) :=
+  centroidArea_scale' sqrt s hs hq g
+
+/-- `Area (s·g) = s²·Area g` -/
+theorem area_scale (sqrt : α → α) (s : α) (hs : 0 < s) (hq : ∀ x, sqrt (s * s * x) = s * sqrt x) (g : Geom α) :
+    area sqrt (scaleGeom s g) = s * s * area sqrt g := area_scale' sqrt s hs hq g
+
+/-- the ring case needs no square root at all -/
+theorem ringCentroidArea_scale (s : α) (hs : 0 < s) (r : List (Pt α)) :
+    ringCentroidArea (r.map (scalePt s)) = (scalePt s (ringCentroidArea r).1, s * s * (ringCentroidArea r).2) :=
+  ringCentroidArea_scale' s hs r
+
+/-- `Length (s·g) = s·Length g` -/
+theorem length_scale (sqrt : α → α) (s : α) (hq : ∀ x, sqrt (s * s * x) = s * sqrt x) (g : Geom α) :
+    length sqrt (scaleGeom s g) = s * length sqrt g := length_scale' sqrt s hq g
+
+/-- the squared point–segment distance scales by `s²` (the projection parameter `t` is scale-free) -/
+theorem segmentDistanceFromSquared_scale (s : α) (hs : 0 < s) (a b p : Pt α) :
+    segmentDistanceFromSquared (scalePt s a) (scalePt s b) (scalePt s p) = s * s * segmentDistanceFromSquared a b p :=
+  segmentDistanceFromSquared_scale' s hs a b p
+
+/-- `DistanceFromWithIndex (s·g, s·p) = (s·d, i)`: the same member / segment is reported (`none` = +Inf stays +Inf) -/
+theorem distanceFromWithIndex_scale (sqrt : α → α) (s : α) (hs : 0 < s) (hq : ∀ x, sqrt (s * s * x) = s * sqrt x)
+    (g : Geom α) (p : Pt α) :
+    distanceFromWithIndex sqrt (scalePt s p) (scaleGeom s g) =
+      ((distanceFromWithIndex sqrt p g).1.map (s * ·), (distanceFromWithIndex sqrt p g).2) :=
+  distanceFromWithIndex_scale' sqrt s hs hq g p
+
+/-- `DistanceFrom (s·g, s·p) = s·DistanceFrom (g, p)` -/
+theorem distanceFrom_scale (sqrt : α → α) (s : α) (hs : 0 < s) (hq : ∀ x, sqrt (s * s * x) = s * sqrt x)
+    (g : Geom α) (p : Pt α) :
+    distanceFrom sqrt (scaleGeom s g) (scalePt s p) = (distanceFrom sqrt g p).map (s * ·) :=
+  distanceFrom_scale' sqrt s hs hq g p
+
+end scale
+
+/-- scaling does not change `Dimensions()` (so the same members are the top-dimensional ones) -/
+theorem dimensions_scaleGeom {α : Type} [Mul α] (s : α) (g : Geom α) : dimensions (scaleGeom s g) = dimensions g :=
+  dimensions_scale s g
+
+/-- Non-vacuity of the scale theorems: the hypothesis on `sqrt` is satisfiable with `s ≠ 1` (here `s = 1/1024` and a
+    square root that is right on the squares that occur), and the adversary's witness — two unit boxes as a
+    multi-polygon, shrunk by 2^-10 — keeps its centroid and (scaled) area instead of collapsing to ((0,0), 0); the
+    1:3 multi-line keeps its length-weighted centroid. -/
+example :
+    centroidArea (fun _ => (0 : Rat)) (scaleGeom (1 / 1024) (.multiPolygon
+      [[[⟨10, 20⟩, ⟨12, 20⟩, ⟨12, 22⟩, ⟨10, 22⟩, ⟨10, 20⟩]], [[⟨30, 40⟩, ⟨32, 40⟩, ⟨32, 42⟩, ⟨30, 42⟩, ⟨30, 40⟩]]])) =
+      ((⟨21 / 1024, 31 / 1024⟩ : Pt Rat), 8 / (1024 * 1024)) ∧
+    (let sq : Rat → Rat := fun x => if x = 1 then 1 else if x = 9 then 3 else if x = 1 / (1024 * 1024) then 1 / 1024
+        else if x = 9 / (1024 * 1024) then 3 / 1024 else 0
+     multiLineStringCentroid sq [[⟨0, 0⟩, ⟨1, 0⟩], [⟨100, 100⟩, ⟨100, 103⟩]] = ⟨(1 / 2 + 300) / 4, (0 + 3 * (203 / 2)) / 4⟩ ∧
+     multiLineStringCentroid sq ([[⟨0, 0⟩, ⟨1, 0⟩], [⟨100, 100⟩, ⟨100, 103⟩]].map (·.map (scalePt (1 / 1024)))) =
+       scalePt (1 / 1024) ⟨(1 / 2 + 300) / 4, (0 + 3 * (203 / 2)) / 4⟩) := by
+  refine ⟨?_, ?_, ?_⟩ <;> decide +kernel
 
 /-- the geometric halves of the two partial clauses, stated in full -/
 def polygon_area_nonneg_full : Prop :=
